@@ -204,6 +204,21 @@ def run_budgeted(fn, max_lines=400000):
         sys.settrace(old)
 
 
+def run_with_deadline(fn, seconds):
+    """ run fn() under a wall-clock alarm (the `re` matcher checks signals while it backtracks) """
+    import signal
+
+    def handler(signum, frame):
+        raise Budget()
+    old = signal.signal(signal.SIGALRM, handler)
+    signal.setitimer(signal.ITIMER_REAL, seconds)
+    try:
+        return fn()
+    finally:
+        signal.setitimer(signal.ITIMER_REAL, 0)
+        signal.signal(signal.SIGALRM, old)
+
+
 def check_totality(rng, tier, names=None):
     from hotxlfp import formulas
     pool = value_pool()
